@@ -2,7 +2,7 @@
 from tsg.facts import DB, strip, txt, callee, call_args, call_object, walk, const_val, short, callee_node
 from tsg.iotokens import Tokenizer, normalize, compare, render, field_in
 from tsg.typestate import member_writes, member_of, must_pass_after
-from tsg.flow import is_reachable, cond_edges_dominating
+from tsg.flow import emptiness, is_reachable, cond_edges_dominating
 from tsg.typestate import must_pass_before
 from tsg.build import AnalysisBroken
 
@@ -223,6 +223,19 @@ def run(chk):
             chk.ob("C06-D4.tags", wn, "tag %r is recognised by %s" % (v, rn), v in rl, w.loc(n))
         chk.floor("C06-D4.tags", nt, 10, "section tags in " + wn)
         # members per tagged section: writer side member set under each if-branch == reader side
+        # which local of the reader is committed into which member (member = local / std::move(local)): the locals are recognised by this role, not by a naming convention
+        commit_of = {}
+        for n in r.walk():
+            if n.get("k") in ("CXXOperatorCallExpr", "BinaryOperator") and n.get("op") == "=":
+                lhs = n["c"][1] if n.get("k") == "CXXOperatorCallExpr" else n["c"][0]
+                rhs = n["c"][2] if n.get("k") == "CXXOperatorCallExpr" else n["c"][1]
+                fld = field_in(lhs, None)
+                if fld and strip(lhs).get("k") == "MemberExpr":
+                    for x in [rhs] + list(walk(rhs)):
+                        if x.get("k") == "DeclRefExpr" and x.get("did") in r.locals():
+                            commit_of.setdefault(x["var"], fld)
+                            break
+
         def sections(fn, side):
             res = {}
             for iff in walk(fn.body, into_lambda=True):
@@ -250,9 +263,8 @@ def run(chk):
                             if n.get("k") == "MemberExpr" and "field" in n and n["field"].startswith(TSG + "::"):
                                 mem.add(short(n["field"]))
                         else:
-                            if n.get("k") == "DeclRefExpr" and n.get("var", "").startswith("new_"):
-                                par = fn.parent.get(n["id"])
-                                mem.add(n["var"][4:])
+                            if n.get("k") == "DeclRefExpr" and n.get("var") in commit_of:
+                                mem.add(commit_of[n["var"]])
                     mem -= {"base", "acceleration"}
                     for t in tags[:1]:
                         if mem:
@@ -271,11 +283,13 @@ def run(chk):
                 rhs = n["c"][2] if n.get("k") == "CXXOperatorCallExpr" else n["c"][1]
                 f = field_in(lhs, None)
                 if f and strip(lhs).get("k") == "MemberExpr":
-                    vs = [x.get("var") for x in walk(rhs) if x.get("k") == "DeclRefExpr" and x.get("var", "").startswith("new_")]
+                    vs = [x.get("var") for x in [rhs] + list(walk(rhs)) if x.get("k") == "DeclRefExpr" and x.get("did") in r.locals()]
                     if vs:
                         commits[f] = vs[0]
         for f in ("base", "domain_transform_a", "domain_transform_b", "conformal_asin_power", "llimits", "using_dynamic_construction"):
-            chk.ob("C06-D4.tags", rn, "restored %s committed to the member" % f, commits.get(f) == "new_" + f, r.where, "commits: %s" % commits.get(f))
+            # the member takes a local of the reader, and no other member takes the same local
+            src_ = commits.get(f)
+            chk.ob("C06-D4.tags", rn, "restored %s committed to the member" % f, src_ is not None and [m for m, v in commits.items() if v == src_] == [f], r.where, "commits: %s" % src_)
 
     # ------------------------------------------------------------------ D5 rebuild of derived construction data
     skel = {}
@@ -473,7 +487,12 @@ def run(chk):
             chk.saw(f)
             nm = txt(el[1])
             guards = [(txt(strip(e)).replace(" ", ""), tr) for e, tr in cond_edges_dominating(f, q)]
-            ok = any((t == "!%s.empty()" % nm and tr) or (t == "%s.empty()" % nm and not tr) or (t.startswith("%s.size()>" % nm) and tr) for t, tr in guards)
+            ok = False
+            for e_, tr_ in cond_edges_dominating(f, q):
+                em_ = emptiness(e_)
+                # on this edge the vector is known not to be empty
+                if em_ is not None and em_[0] == nm and em_[1] == (not tr_):
+                    ok = True
             chk.ob("C06-D9.counts", f.key, "element 0 of `%s` read only when the vector is not empty" % nm, ok, f.loc(q), "guards %s" % guards[:3])
 
     # ------------------------------------------------------------------ D6 precision
